@@ -979,7 +979,8 @@ class Model(Object):
             warn("need to pass in a list")
             group_list = [group_list]
 
-        for group in group_list:
+        # the argument may be the model's own list, which shrinks while we iterate
+        for group in list(group_list):
             if isinstance(group, str) and group in self.groups:
                 group = self.groups.get_by_id(group)
             # make sure the group is in the model
